@@ -39,10 +39,17 @@ func (c Config) MaxSize() uint64 {
 }
 
 func (c Config) Options() txfile.Options {
+	// InitMetaArea only matters when the file is created, but every Open
+	// validates it against MaxSize; after a shrink of the limit (resize on open,
+	// limit taken from a crash image) the option set must stay a valid one
+	initMeta := c.InitMetaArea
+	if c.MaxPages > 0 && int(initMeta) >= c.MaxPages-2 {
+		initMeta = 2
+	}
 	return txfile.Options{
 		MaxSize:      c.MaxSize(),
 		PageSize:     c.PageSize,
-		InitMetaArea: c.InitMetaArea,
+		InitMetaArea: initMeta,
 		Prealloc:     c.Prealloc,
 		Sync:         txfile.SyncMode(c.SyncMode),
 	}
@@ -299,7 +306,7 @@ func (w *World) Open() bool {
 		return false
 	}
 	if err != nil {
-		w.violate("open-failed", "open-failed:"+kindOf(err), "open failed: %v", err)
+		w.violate("open-failed", "open-failed:"+kindOf(err), "open failed: %+v", err)
 		return false
 	}
 	w.tracef("open maxsize=%d", opts.MaxSize)
